@@ -150,6 +150,7 @@ type viewFact struct {
 	at   int // index of the parent premise in assumps
 	pc   string
 	body string // B with the placeholder @V@
+	rng  string // "lo..hi" (literal bounds): facts are instantiated for goals over the same range
 }
 
 type modLoc struct {
@@ -1053,6 +1054,15 @@ func (e *Exec) toSort(v Term, want Sort) Term {
 	if v.Sort == SBV64 && want == SInt {
 		if strings.HasPrefix(v.S, "((_ int2bv 64) ") {
 			return Mod(Term{v.S[len("((_ int2bv 64) ") : len(v.S)-1], SInt}, pow2(64))
+		}
+		if strings.HasPrefix(v.S, "(bvadd ") {
+			// a sum of words read as a number: sum of the parts modulo 2^64
+			parts := splitTop(v.S[1 : len(v.S)-1])
+			if len(parts) == 3 {
+				a := e.toSort(Term{parts[1], SBV64}, SInt)
+				b := e.toSort(Term{parts[2], SBV64}, SInt)
+				return Mod(Add(a, b), pow2(64))
+			}
 		}
 		if strings.HasPrefix(v.S, "#x") && len(v.S) == 18 {
 			n := new(big.Int)
